@@ -86,6 +86,9 @@ fn inspect(map: &GuestMemoryMmap<()>, model: &[MR], what: &str) -> Result<(), St
     let want: Vec<(u64, u64)> = model.iter().map(|m| (m.start, m.len)).collect();
     ensure!(listed == want, "{}: iter() yields {:x?}, the model says {:x?}", what, listed, want);
     ensure!(map.num_regions() == model.len(), "{}: num_regions = {}, model {}", what, map.num_regions(), model.len());
+    if let Some(top) = model.iter().map(|m| m.start + (m.len - 1)).max() {
+        ensure!(map.last_addr().0 == top, "{}: last_addr() = {:#x}, the highest byte of the model's regions is {:#x}", what, map.last_addr().0, top);
+    }
     for w in listed.windows(2) {
         ensure!(w[0].0 as u128 + w[0].1 as u128 <= w[1].0 as u128, "{}: regions {:x?} and {:x?} are not sorted/disjoint", what, w[0], w[1]);
     }
@@ -197,9 +200,32 @@ fn run(t: &mut Tape, cx: &mut Cx) -> Result<(), String> {
                 if t.chance(2, 3) {
                     ranges.sort();
                 }
+                // sometimes one range cannot be turned into a region: its end exceeds the address space
+                let mut bad = false;
+                if !ranges.is_empty() && t.chance(1, 4) {
+                    let i = t.idx(ranges.len());
+                    let len = ranges[i].1;
+                    if len >= 2 {
+                        // start + len = 2^64 + k, 1 <= k <= min(3, len - 1)
+                        let k = 1 + t.below(3.min(len - 1));
+                        ranges[i].0 = u64::MAX - len + 1 + k;
+                        bad = true;
+                        cx.nt("range_beyond_address_space");
+                    }
+                }
                 let list: Vec<MR> = ranges.iter().map(|&(s, l)| MR { start: s, len: l, tag: 0 }).collect();
                 let (ok, errs) = expect_build(&list);
-                note!(cx, "from_ranges({:x?})", ranges);
+                note!(cx, "from_ranges({:x?}){}", ranges, if bad { " (one range ends beyond 2^64)" } else { "" });
+                if bad {
+                    let rr: Vec<(GuestAddress, usize)> = ranges.iter().map(|&(s, l)| (GuestAddress(s), l as usize)).collect();
+                    let r = if t.flag() { GuestMemoryMmap::<()>::from_ranges(&rr) } else { GuestMemoryMmap::<()>::from_ranges_with_files(rr.iter().map(|&(a, l)| (a, l, None::<vm_memory::FileOffset>)).collect::<Vec<_>>()) };
+                    match r {
+                        Ok(m) => return Err(format!("from_ranges({:x?}) returned a map of {} regions although one range ends beyond the address space", ranges, m.num_regions())),
+                        Err(e) => ensure!(err_name(&e) == "InvalidGuestRegion" || (!ok && errs.contains(&err_name(&e))), "from_ranges({:x?}) with a range beyond the address space failed with {}", ranges, err_name(&e)),
+                    }
+                    cx.nt("build_refused");
+                    continue;
+                }
                 let rr: Vec<(GuestAddress, usize)> = ranges.iter().map(|&(s, l)| (GuestAddress(s), l as usize)).collect();
                 match GuestMemoryMmap::<()>::from_ranges(&rr) {
                     Ok(m) => {
